@@ -99,12 +99,18 @@ def ob_select(cx):
     conflicts = C.ConflictList()
     spec = []
     for i in range(nc):
-        kind = cx.pick("kind%d" % i, ["text", "path"])
+        kind = cx.pick("kind%d" % i, ["text", "path", "duplicate"])
         path = cx.str("cpath%d" % i, cx.choose("lc%d" % i, 1, lp), ALPHA)
         fid = cx.bytes("cfid%d" % i, 1, b"xyz") if cx.choose("hasfid%d" % i, 0, 1) else None
         if kind == "text":
             c = C.TextConflict(path, file_id=fid)
             spec.append((c, [path], [fid]))
+        elif kind == "duplicate":
+            # a conflict between TWO entries: two paths and two file ids
+            cpath = cx.str("cpath2_%d" % i, cx.choose("lc2_%d" % i, 1, lp), ALPHA)
+            fid2 = cx.bytes("cfid2_%d" % i, 1, b"xyz") if cx.choose("hasfid2_%d" % i, 0, 1) else None
+            c = C.DuplicateEntry("Moved existing file to", path, cpath, file_id=fid, conflict_file_id=fid2)
+            spec.append((c, [path, cpath], [fid, fid2]))
         else:
             cpath = cx.str("cpath2_%d" % i, cx.choose("lc2_%d" % i, 1, lp), ALPHA)
             c = C.PathConflict(path, conflict_path=cpath, file_id=fid)
